@@ -7,7 +7,7 @@
    fairness, are observed by the correspondence scenarios, not proved. *)
 From Coq Require Import List Arith Bool.
 Import ListNotations.
-From SV Require Import Model.TokenSet Model.Accept Proofs.AcceptP Proofs.AcceptP2.
+From SV Require Import Base.SrcAst Model.TokenSet Model.Accept Proofs.AcceptP Proofs.AcceptP2 Tie.TokenSetTie Generated.SourceParams.
 
 (* ---- the slot pool driven through its API (src/token_set.rs) ---- *)
 
@@ -122,6 +122,20 @@ Example c12_pool_nonvacuous :
   pool_model 2 [PTake; PTry; PTake; PDrop 0; PTry] = ([OGot; OGot; OTimeout; ODropped; OGot], 0, 2).
 Proof. vm_compute. reflexivity. Qed.
 
+(* C12.src  src/token_set.rs as TRANSLATED statement by statement ON THIS RUN (props/srcparams.py ->
+   Generated/SourceParams.v), interpreted by Tie/TokenSetTie.v, is the token-set model the theorems above are about:
+   new(size) = a channel of capacity size holding size units; Token::drop = try_send, a failure ignored; each of
+   async_wait_token / wait_token / wait_token_timeout receives one unit and hands out a clone of the sender *)
+Theorem c12_token_set_new_is_the_source : forall n, eval_ts_new src_ts_new n None = Some (ts_new n).
+Proof. exact token_set_new_tie. Qed.
+Theorem c12_token_drop_is_the_source : forall t, eval_ts_drop src_ts_drop t = Some (ts_drop t).
+Proof. exact token_drop_tie. Qed.
+Theorem c12_token_take_is_the_source :
+  length src_ts_takes = 3 /\ Forall (fun st => forall t, eval_ts_take st t = ts_recv t) src_ts_takes.
+Proof. exact token_take_tie. Qed.
+Theorem c12_translation_complete : src_problems_token_set = 0%nat.
+Proof. exact token_set_translated. Qed.
+
 Print Assumptions c12_pool_conservation.
 Print Assumptions c12_pool_drop_never_lost.
 Print Assumptions c12_pool_take_iff_room.
@@ -135,3 +149,7 @@ Print Assumptions c12_can_refill.
 Print Assumptions c12_scenario_is_trace.
 Print Assumptions c12_scenario_oracle_safety.
 Print Assumptions c12_scenario_oracle_sound.
+Print Assumptions c12_token_set_new_is_the_source.
+Print Assumptions c12_token_drop_is_the_source.
+Print Assumptions c12_token_take_is_the_source.
+Print Assumptions c12_translation_complete.
